@@ -4,6 +4,8 @@ import numpy as np
 from symnp.runner import Case
 from harness.bf_common import pd_matrix, herm, noise_psd, concrete_pd
 
+ALIASES = {'step_a_identity': ('consecutive_bins_aligned',)}
+
 OUTSIDE = ('D > 2, F > 3, more than one extra leading axis; singular bins are exercised with concrete noise PSDs (zero / '
            'rank-deficient / regular) and symbolic targets; frequency_dependent distortion weight; cythonised GEV')
 
